@@ -146,12 +146,13 @@ def run_split(case, ctx):
     if J is None:
         return
     d = cv.function_diff(rc, J, exact)
-    if d is not None and W is None and exact:
-        # tier 2: a needed copy removed within the 1e-9 tolerance of the junction cleaning
+    if d is not None:
+        # tier 2: a needed copy of a junction knot removed within the 1e-9 tolerance of the junction cleaning
         ctx.count("join_tier2")
-        deviation_ok(ctx, rc, J, F(1, 10**9), True, f"join:function:{kind}", "join of split pieces deviates from the original")
+        deviation_ok(ctx, rc, J, F(1, 10**9), exact, f"join:function:{kind}", f"join of the split pieces differs from the original curve ({d})")
     else:
-        ctx.check(d is None, f"join:function:{kind}", f"join of the split pieces differs from the original curve: {d}")
+        ctx.count("join_tier1")
+        ctx.compared()
     if W is None and exact and d is None:
         junctions = cuts[1:-1]
         expU = list(rc.U)
